@@ -5,81 +5,9 @@ package PKGNAME
 
 import (
 	"context"
-	"strconv"
 
 	"go.opentelemetry.io/collector/exporter/exporterhelper/internal/sizer"
-	"go.opentelemetry.io/collector/pdata/plog"
-	"go.opentelemetry.io/collector/pdata/pcommon"
 )
-
-type vc04LogItem struct {
-	id                        uint64
-	rattr, rschema            string
-	sname, sversion, sschema  string
-}
-
-// vc04BuildLogs builds a payload of nr resources x ns scopes with 1..maxL records per scope.
-// With bytesMode the record bodies are strings of symbolic length (content unobservable).
-func vc04BuildLogs(tag string, nextID *uint64, maxL int, bytesMode bool, bodyMax int) (plog.Logs, []vc04LogItem) {
-	ld := plog.NewLogs()
-	var items []vc04LogItem
-	maxR, symLeft := 2, 0
-	if bytesMode {
-		maxR, symLeft = vParam("maxR"), vParam("symBodies")
-	}
-	nr := 1 + vChoice(tag+"-resources", maxR)
-	for r := 0; r < nr; r++ {
-		rl := ld.ResourceLogs().AppendEmpty()
-		rattr := tag + "r" + strconv.Itoa(r)
-		rl.Resource().Attributes().PutStr("res", rattr)
-		rl.SetSchemaUrl("rs:" + rattr)
-		ns := 1 + vChoice(tag+"-scopes", 2)
-		for s := 0; s < ns; s++ {
-			sl := rl.ScopeLogs().AppendEmpty()
-			sname := rattr + "s" + strconv.Itoa(s)
-			sl.Scope().SetName(sname)
-			sl.Scope().SetVersion("v" + sname)
-			sl.SetSchemaUrl("ss:" + sname)
-			nl := 1 + vChoice(tag+"-records", maxL)
-			for l := 0; l < nl; l++ {
-				lr := sl.LogRecords().AppendEmpty()
-				*nextID++
-				lr.SetTimestamp(pcommon.Timestamp(*nextID))
-				if bytesMode {
-					if symLeft > 0 {
-						symLeft--
-						lr.Body().SetStr(vNondetLenString("body", bodyMax))
-					} else {
-						lr.Body().SetStr("abc")
-					}
-				}
-				items = append(items, vc04LogItem{id: *nextID, rattr: rattr, rschema: "rs:" + rattr, sname: sname, sversion: "v" + sname, sschema: "ss:" + sname})
-			}
-		}
-	}
-	return ld, items
-}
-
-func vc04FlattenLogs(ld plog.Logs) []vc04LogItem {
-	var out []vc04LogItem
-	for r := 0; r < ld.ResourceLogs().Len(); r++ {
-		rl := ld.ResourceLogs().At(r)
-		rattr := ""
-		if v, ok := rl.Resource().Attributes().Get("res"); ok {
-			rattr = v.Str()
-		}
-		for s := 0; s < rl.ScopeLogs().Len(); s++ {
-			sl := rl.ScopeLogs().At(s)
-			for l := 0; l < sl.LogRecords().Len(); l++ {
-				out = append(out, vc04LogItem{
-					id: uint64(sl.LogRecords().At(l).Timestamp()), rattr: rattr, rschema: rl.SchemaUrl(),
-					sname: sl.Scope().Name(), sversion: sl.Scope().Version(), sschema: sl.SchemaUrl(),
-				})
-			}
-		}
-	}
-	return out
-}
 
 func vc04CheckLogs(res []Request, in []vc04LogItem, maxSize int, sz sizer.LogsSizer, lbl string) {
 	vAssert(len(res) > 0, lbl+"/result-non-empty")
